@@ -866,3 +866,55 @@ func (pc *pCtx) p1CtxKeys(only string) {
 		}
 	}
 }
+
+// p2BareReceive: a function that waits in a select (so that a stop channel or a context can end the wait) does not also
+// block on a bare channel receive, where nothing can stop it: after the teardown it would still take what arrives on the
+// channel (FromChannel draining "what is already buffered" with plain receives).
+func (pc *pCtx) p2BareReceive(only string) {
+	var paths []string
+	for p := range pc.kc.w.ByPath {
+		if isRoPkg(p) && !strings.Contains(p, "/examples/") && !strings.HasSuffix(p, "/testing") && !strings.Contains(p, "/internal/") {
+			paths = append(paths, p)
+		}
+	}
+	sort.Strings(paths)
+	for _, p := range paths {
+		fns := pc.kc.w.allFuncs(p)
+		for _, k := range sortedKeys(fns) {
+			fn := fns[k]
+			if fn.Blocks == nil || strings.HasSuffix(pc.kc.w.Prog.Fset.Position(fn.Pos()).Filename, "_test.go") {
+				continue
+			}
+			name := k
+			if p != roPath {
+				name = strings.TrimPrefix(p, roPath+"/") + "." + k
+			}
+			if only != "" && !strings.Contains(name, only) {
+				continue
+			}
+			selects := 0
+			bare := ""
+			var at token.Pos
+			for _, b := range fn.Blocks {
+				for _, ins := range b.Instrs {
+					switch t := ins.(type) {
+					case *ssa.Select:
+						if t.Blocking {
+							selects++
+						}
+					case *ssa.UnOp:
+						if t.Op == token.ARROW && bare == "" {
+							bare = fmt.Sprintf("a receive outside the select at %s", pc.pos(t.Pos()))
+							at = t.Pos()
+						}
+					}
+				}
+			}
+			if selects == 0 {
+				continue
+			}
+			pc.add([]string{"C03", "C14", "C17"}, fmt.Sprintf("P2/%s/waits-only-in-its-select", name),
+				"a function that waits in a select, where a stop channel or a context can end the wait, does not also block on a bare channel receive", bare == "", bare, pc.pos(at))
+		}
+	}
+}
